@@ -170,6 +170,37 @@ def elementwise(ctx: Ctx):
             ctx.violation({"transform": f}, {"why": "exception", "observed": type(e).__name__ + ": " + str(e)[:100]}, kind="replay")
 
 
+def magnitudes(ctx: Ctx):
+    """harness float predicates off the exact grid: zero mean / unit standard deviation / orthonormality for data with a large offset
+    or scale (integer-valued, so that centring is exact in floating point and 1e-9 is a meaningful tolerance)."""
+    import pandas
+    from formulaic import model_matrix
+    from formulaic.transforms import poly, scale
+
+    for off in (0.0, 1e3, 1e6, 1e8, 1e10, -1e9):
+        for mult in (1.0, 1e4):
+            x = off + mult * numpy.array([0.0, 1, 2, 3, 4, 5, 6, 7, 8, 9, 13, 21])
+            tol = 1e-9 + 8 * float(numpy.spacing(numpy.abs(x).max())) / float(numpy.std(x))      # rounding of the mean itself
+            for ddof in (0, 1):
+                ctx.traces += 1
+                ctx.evaluations += 1
+                st = {}
+                got = scale(x, ddof=ddof, _state=st)
+                sd = float(numpy.std(got, ddof=ddof))
+                if not (abs(float(numpy.mean(got))) < tol and abs(sd - 1) < tol):
+                    ctx.violation({"transform": "scale", "offset": off, "multiplier": mult, "ddof": ddof},
+                                  {"why": "not zero mean / unit standard deviation on data of large magnitude", "mean": float(numpy.mean(got)), "std": sd}, kind="predicate")
+                m2 = numpy.asarray(model_matrix("0 + scale(x)", pandas.DataFrame({"x": x}), context={}))[:, 0]
+                if abs(float(numpy.std(m2, ddof=1)) - 1) > tol and ddof == 1:
+                    ctx.violation({"transform": "scale via model_matrix", "offset": off, "multiplier": mult}, {"why": "not unit standard deviation", "std": float(numpy.std(m2, ddof=1))}, kind="predicate")
+            if abs(off) <= 1e6:
+                P = numpy.asarray(poly(x, degree=3, _state={}), dtype=float)
+                ctx.traces += 1
+                ctx.evaluations += 1
+                if not (numpy.allclose(P.T @ P, numpy.eye(3), atol=1e-7) and numpy.allclose(P.sum(axis=0), 0, atol=1e-7)):
+                    ctx.violation({"transform": "poly", "offset": off, "multiplier": mult}, {"why": "columns not orthonormal / not orthogonal to the constant", "gram": (P.T @ P).tolist()}, kind="predicate")
+
+
 def run(ctx: Ctx) -> None:
     ctx.rule = ("every integer vector of length 2..MaxLen over Lo..Hi (not constant) x {center, scale flags, ddof 0/1} for scale and x degree 1..3 for poly "
                 "(needs > degree distinct values), 2 follow-up vectors each; elementwise functions on k = 0..8 and a grid; non-trivial = >= 3 distinct values")
@@ -193,6 +224,7 @@ def run(ctx: Ctx) -> None:
         for b in bad:
             ctx.violation({k: b.get(k) for k in ("transform", "x", "center", "scale", "ddof", "degree")} | {"why": b["why"]}, b, kind="replay")
     elementwise(ctx)
+    magnitudes(ctx)
     for c in [c for c in cases if c["kind"] == "poly" and c["degree"] == 2 and len(c["x"]) == 4][:1]:
         ctx.sample({"x": c["x"], "degree": 2, "expected_fit_as_(num, norm2)": c["fit"]})
     ctx.exhaustive = True
